@@ -331,18 +331,37 @@ def fc_setup(eng):
     r1 = {10: mk('r1_10'), 11: mk('r1_11')}
     r2 = {11: mk('r2_11'), 12: mk('r2_12')}
     eng.spec_env['R1C'], eng.spec_env['R2C'] = r1, r2
+    eng.spec_env['GHOST'] = eng.ghost
+
+    def dictionaries(e, f, a, k, n):
+        e.ghost['dict_args'] = (list(a), dict(k))
+        return (dict(r1), dict(r2))
     for q in ('singlecellmultiomics.utils.sequtils.get_consensus_dictionaries', 'singlecellmultiomics.fragment.fragment.get_consensus_dictionaries'):
-        eng.loader.call_hooks[q] = lambda e, f, a, k, n: (dict(r1), dict(r2))
+        eng.loader.call_hooks[q] = dictionaries
     for q in ('singlecellmultiomics.utils.sequtils.pick_best_base_call', 'singlecellmultiomics.fragment.fragment.pick_best_base_call'):
         eng.loader.call_hooks[q] = lambda e, f, a, k, n: ('best of', a[0], a[1])
 
 
+def fc_fragment(eng):
+    """a fragment of two mapped mates in any orientation and any relative position (overlapping, apart, past each other)"""
+    from pyvc import stubs as _st
+    from pyvc.engine import Obj as _Obj, fresh as _fresh
+    rs = []
+    for nm in ('R1', 'R2'):
+        r = _st.make_read(eng, nm, tags={}, mapped=True, closed=True)
+        rs.append(r)
+    return _Obj('Fragment', {'reads': rs}, info=eng.loader.classref(FFRAG, 'Fragment'))
+
+
 fragment_consensus = Contract(
     PROP, FFRAG + '::Fragment.get_consensus', name='Fragment.get_consensus[both mates, overlapping in one position]',
-    params={'self': ('obj', 'Fragment', {'R1': ('const', 'R1'), 'R2': ('const', 'R2')}, FFRAG), 'only_include_refbase': 'none',
-            'dove_safe': 'bool'},
+    params={'self': lambda e, n: fc_fragment(e), 'only_include_refbase': 'none', 'dove_safe': 'bool'},
     setup=fc_setup,
     ensures={
+        # the mate-overlap-safe restriction (and the reference-base filter) asked for is the one applied, for every pair of mates
+        'the_mates_and_the_restrictions_are_handed_on_unchanged':
+            '(GHOST["dict_args"][0][0] is self.reads[0]) and (GHOST["dict_args"][0][1] is self.reads[1]) and '
+            'GHOST["dict_args"][1]["dove_safe"] == dove_safe and GHOST["dict_args"][1]["only_include_refbase"] is None',
         'every_position_covered_by_either_mate_gets_one_call': 'sorted(list(result.keys())) == [10, 11, 12]',
         'the_call_is_the_better_of_the_two_mates':
             'result[10] == ("best of", R1C[10], None) and result[11] == ("best of", R1C[11], R2C[11]) and result[12] == ("best of", None, R2C[12])',
